@@ -28,6 +28,13 @@
 #include <unifex/upon_done.hpp>
 #include <unifex/upon_error.hpp>
 #include <unifex/via.hpp>
+#include <unifex/allocate.hpp>
+#include <unifex/defer.hpp>
+#include <unifex/into_variant.hpp>
+#include <unifex/let_value_with.hpp>
+#include <unifex/let_value_with_stop_token.hpp>
+#include <unifex/variant_sender.hpp>
+#include <unifex/with_allocator.hpp>
 #include <unifex/when_all.hpp>
 #include <unifex/when_any.hpp>
 #include <unifex/with_query_value.hpp>
@@ -48,11 +55,13 @@ enum Kind {
   K_THEN, K_UPON_ERROR, K_UPON_DONE, K_LET_VALUE, K_LET_ERROR, K_LET_DONE,
   K_FINALLY, K_SEQUENCE, K_WHEN_ALL, K_STOP_WHEN, K_UNSTOPPABLE, K_VIA, K_ON,
   K_WITH_TAG, K_MAT_DEMAT, K_DONE_AS_OPT, K_LVWSS, K_ANY_SENDER, K_RETRY_WHEN, K_WHEN_ANY,
+  K_DEFER, K_LVW, K_LVWST, K_ALLOCATE, K_INTO_VARIANT, K_VARIANT, K_WITH_ALLOC,
   K_COUNT
 };
 const char* kKindName[] = {"just", "just_error", "just_done", "leaf", "then", "upon_error", "upon_done", "let_value", "let_error",
                            "let_done", "finally", "sequence", "when_all", "stop_when", "unstoppable", "via", "on", "with_tag",
-                           "mat_demat", "done_as_opt", "lvwss", "any_sender_of", "retry_when", "when_any"};
+                           "mat_demat", "done_as_opt", "lvwss", "any_sender_of", "retry_when", "when_any",
+                           "defer", "let_value_with", "lvwst", "allocate", "into_variant", "variant_sender", "with_allocator"};
 
 struct Node {
   int id = 0;
@@ -453,6 +462,9 @@ struct FnDone {  // () -> Val
     return Val{mix(k, 0)};
   }
 };
+struct IdVal {
+  Val operator()(Val v) const { return Val{v.get()}; }
+};
 struct Discard {
   void operator()(Val v) const noexcept { (void)v.get(); }
 };
@@ -532,6 +544,23 @@ void build_node(World* w, int id) {
         });
       break;
     case K_STOP_WHEN: n.impl = make_node([a, b] { return unifex::stop_when(any_snd(a), unifex::then(any_snd(b), Discard{})); }); break;
+    case K_DEFER: n.impl = make_node([a] { return unifex::defer([a]() noexcept { return any_snd(a); }); }); break;
+    case K_LVW: n.impl = make_node([a, k] { return unifex::let_value_with([k]() noexcept { return k; }, [a](long&) noexcept { return any_snd(a); }); }); break;
+    case K_LVWST: n.impl = make_node([a] { return unifex::let_value_with_stop_token([a](auto) noexcept { return any_snd(a); }); }); break;
+    case K_ALLOCATE: n.impl = make_node([a] { return unifex::allocate(any_snd(a)); }); break;
+    case K_INTO_VARIANT:
+      n.impl = make_node([a] {
+        return unifex::then(unifex::into_variant(any_snd(a)), [](auto&& var) { return Val{std::get<0>(std::get<0>(std::move(var))).get()}; });
+      });
+      break;
+    case K_VARIANT:
+      n.impl = make_node([a, k] {
+        using VS = unifex::variant_sender<any_snd, decltype(unifex::then(any_snd(a), IdVal{}))>;
+        if (k & 1) return VS{any_snd(a)};
+        return VS{unifex::then(any_snd(a), IdVal{})};
+      });
+      break;
+    case K_WITH_ALLOC: n.impl = make_node([a, k] { return unifex::with_allocator(any_snd(a), sim_allocator<std::byte>{2 + (int)(k & 1)}); }); break;
     case K_WHEN_ANY:
       if (n.nchild == 2) n.impl = make_node([a, b] { return unifex::when_any(any_snd(a), any_snd(b)); });
       else n.impl = make_node([a, b, c] { return unifex::when_any(any_snd(a), any_snd(b), any_snd(c)); });
@@ -596,6 +625,12 @@ int gen(World* w, int depth, int parent, int* budget) {
       static int wany = -1;
       if (wany < 0) wany = (int)usim_param_int("wany", 0);
       if (wany && draw(5) == 0) kind = K_WHEN_ANY;  // (only with wany=1: keeps the tapes of older replays meaningful)
+      static int more = -1;
+      if (more < 0) more = (int)usim_param_int("more", 0);
+      if (more && draw(3) == 0) {
+        static const int extra[] = {K_DEFER, K_LVW, K_LVWST, K_ALLOCATE, K_INTO_VARIANT, K_VARIANT, K_WITH_ALLOC};
+        kind = extra[draw(7)];
+      }
     }
     if (kind == K_LEAF && w->nleaves >= kMaxLeaves) kind = K_JUST;
   }
@@ -914,7 +949,8 @@ void check_tap(World* w, TapRec* t, bool) {
       same_as(s, "stop_when yields the source's result");
       break;
     }
-    case K_UNSTOPPABLE: case K_WITH_TAG: case K_MAT_DEMAT: case K_LVWSS: {
+    case K_UNSTOPPABLE: case K_WITH_TAG: case K_MAT_DEMAT: case K_LVWSS:
+    case K_DEFER: case K_LVW: case K_LVWST: case K_ALLOCATE: case K_INTO_VARIANT: case K_VARIANT: case K_WITH_ALLOC: {
       TapRec* c = child_done(c0, n0);
       if (!c) { fail("completed although its child has not"); break; }
       same_as(c, "transparent adaptor");
@@ -1005,6 +1041,7 @@ void expected_queries(World* w, int node, long* tag, int* sched, int* alloc) {
     Node& p = w->nodes[path[i]];
     if (p.kind == K_ANY_SENDER) { *tag = -1; *sched = -3; *alloc = -1; }  // a plain any_sender_of<> declares no query besides the stop token
     if (p.kind == K_WITH_TAG) *tag = p.k;
+    if (p.kind == K_WITH_ALLOC) *alloc = 2 + (int)(p.k & 1);
     if (p.kind == K_ON) *sched = p.ctx;
   }
 }
@@ -1223,6 +1260,12 @@ void body_expr(void*) {
         KIT_CHECK(r->stop_at_start, "c04.started-after-stop", "leaf %d was started after the external stop request returned with stop_requested()==false", r->leaf);
         usim_probe("leaf started already-stopped");
       }
+    }
+    // C12: every allocation made through an allocator obtained from a receiver went back to the same allocator
+    for (int id = 0; id < 4; ++id) {
+      AllocStats& a = w->astats[id];
+      KIT_CHECK(a.allocs == a.deallocs && a.bytes == 0, "c12.allocator-pairing", "allocator %d served %ld allocations and received %ld deallocations (%ld bytes outstanding)", id, (long)a.allocs, (long)a.deallocs, (long)a.bytes);
+      if (a.allocs) usim_probe("allocator pairing checked");
     }
     // C04: losers of when_all / stop_when are told to stop
     for (auto* t : w->taps) {
